@@ -66,7 +66,7 @@ func c11Call(api string, conn sqlx.Conn, body func(context.Context, sqlx.Session
 	}
 }
 
-// c11Stmt runs statement kind k through the session and returns its error.
+// c11RunStmt runs statement kind k through the session and returns its error.
 func c11RunStmt(ctx context.Context, s sqlx.Session, kind byte, i int) error {
 	switch kind {
 	case 'e':
@@ -383,6 +383,7 @@ func TestVerifC11TxTable(t *testing.T) {
 		m.Count("class_"+k, n)
 	}
 	m.Extra("exhaustive_fault_table", true)
+	m.Extra("exhaustive", true)
 	m.Extra("table_size", len(table))
 }
 
@@ -459,7 +460,7 @@ func TestVerifC11TxSqlmock(t *testing.T) {
 func TestVerifC11TxHistories(t *testing.T) {
 	m := vk.New(t, "C11", "seeded histories: 2-6 consecutive transactions on one sqlx.Conn / one *sql.DB, bodies of 0-6 statements, random outcome, random Begin/statement/Commit/Rollback faults and body reactions; each transaction judged with the table oracle on its own driver events; a breaker rejection that starts nothing is outside the table; non-trivial = history reached the driver")
 	defer m.Done()
-	n := vk.N(400, 12000)
+	n := vk.N(400, 30000)
 	r := m.Rand("histories")
 	apis := []string{"sqlx.Transact", "sqlx.TransactCtx", "sqlc.Transact", "sqlc.TransactCtx"}
 	outcomes := []string{"nil", "nil", "error", "panic-error", "panic-string", "panic-runtime"}
